@@ -13,7 +13,8 @@ LEVEL = "exploration"
 SHARDS = {"quick": 1, "thorough": 16}
 RULE = (
     "case = (signature, call shape, requested-name variant, mode in {all-hold, pre-violated, post-violated}, flavour in "
-    "{def, async def, method called on an instance (self requestable, _ARGS starts with the instance)}, re-entry in "
+    "{def, async def, method called on an instance (self requestable, _ARGS starts with the instance), method of a DBC "
+    "sub-class that overrides - without contracts of its own - a base method carrying the contracts}, re-entry in "
     "{no, the body calls the same callable again with other argument objects before returning}); "
     "signatures: 0..2 positional-only x 0..3 positional-or-keyword x *args? x 0..2 keyword-only x **kwargs? x every "
     "legal default placement; shapes: every bindable count of positionals (surplus 0..2 with *args), every "
@@ -36,6 +37,9 @@ class FactoryError(Exception):
     pass
 
 
+METHODISH = ("method", "inherited")
+
+
 class Rig:
     """One decorated function + callbacks for (sig, req)."""
 
@@ -55,14 +59,14 @@ class Rig:
         self.result = Obj("RESULT")
         self.cap_token = Obj("CAP")
         self.err_obj = None
-        g = {"BODY": self._body, "CB": self._cb, "CBDEF": self.cbdef}
+        g = {"BODY": self._body, "BODY2": self._body, "CB": self._cb, "CBDEF": self.cbdef}
         self.defaults = {}
         for i, n in enumerate(sig["dflt"]):
             # every other default is None (the most common default, and a value implementations like to test for)
             self.defaults[n] = None if i % 2 else Obj("dflt_" + n)
             g["D_" + n] = self.defaults[n]
         params = sigmodel.render_params(sig)
-        if flavour == "method":
+        if flavour in METHODISH:
             params = "self, " + params if params else "self"
         src = ["%sdef f(%s):\n    return BODY(locals())\n" % ("async " if flavour == "async" else "", params)]
         for role in ("pre", "cap", "post", "errpre", "errpost"):
@@ -79,18 +83,28 @@ class Rig:
         self.inst = None
         if flavour == "method":
             self.inst = type("K", (), {"f": f})()
+        if flavour == "inherited":
+            # the contracts sit on a DBC base class; the sub-class overrides the method without contracts of its own: the
+            # override's body is what runs, under the inherited contracts
+            base = type(icontract.DBC)("P", (icontract.DBC,), {"f": f})
+            exec(compile(src[0].replace("def f(", "def f2(").replace("BODY(", "BODY2("), "<c05rig>", "exec"), g)
+            g["f2"].__name__ = "f"
+            self.bare = g["f2"]
+            self.bare_sig = inspect.signature(self.bare)
+            self.inst = type(icontract.DBC)("K", (base,), {"f": g["f2"]})()
+            self.func = type(self.inst).f
 
     def prefix(self):
         """Positional arguments Python puts in front of the call's own (the instance of a method call)."""
-        return (self.inst,) if self.flavour == "method" else ()
+        return (self.inst,) if self.flavour in METHODISH else ()
 
     self_by_keyword = False
 
     def call(self, fn, args, kwargs):
         """Call the bare or the decorated callable the way a user would and return its result."""
-        if self.flavour == "method" and fn is self.func and self.self_by_keyword and not args:
+        if self.flavour in METHODISH and fn is self.func and self.self_by_keyword and not args:
             ret = type(self.inst).f(self=self.inst, **kwargs)  # the unbound function with `self` passed by keyword
-        elif self.flavour == "method" and fn is self.func:
+        elif self.flavour in METHODISH and fn is self.func:
             ret = self.inst.f(*args, **kwargs)
         else:
             ret = fn(*(self.prefix() + tuple(args)), **kwargs)
@@ -151,7 +165,7 @@ def get_rig(sig, req, dreq=None, flavour="func"):
 def req_variants(sig, flavour="func"):
     """Deterministic requested-name variants for the enumerating tier."""
     names = sigmodel.sig_params(sig)
-    full = (["self"] if flavour == "method" else []) + names + ["_ARGS", "_KWARGS"]
+    full = (["self"] if flavour in METHODISH else []) + names + ["_ARGS", "_KWARGS"]
     out = []
     out.append({"pre": full, "cap": full, "post": full + ["result", "OLD"], "errpre": full,
                 "errpost": full + ["result", "OLD"]})
@@ -177,9 +191,9 @@ def expected_value(name, sig, bound, args, kwargs, rig):
     """What a callback must receive for ``name`` -> ('val', obj) | ('missing',)"""
     if name in sigmodel.sig_params(sig):
         return ("val", bound.arguments[name])
-    if name == "self" and rig.flavour == "method":
+    if name == "self" and rig.flavour in METHODISH:
         return ("val", rig.inst)
-    by_kw = rig.flavour == "method" and rig.self_by_keyword and not args
+    by_kw = rig.flavour in METHODISH and rig.self_by_keyword and not args
     if name == "_ARGS":
         return ("args", () if by_kw else rig.prefix() + tuple(args))
     if name == "_KWARGS":
@@ -273,7 +287,7 @@ def run_case(ctx, case):
     finally:
         rig.reenter = None
         rig.depth = 0
-        by_kw_used = rig.self_by_keyword and rig.flavour == "method" and not args
+        by_kw_used = rig.self_by_keyword and rig.flavour in METHODISH and not args
         if by_kw_used:
             ctx.count("method called unbound with self passed by keyword")
     if case.get("reenter") and "body" in [r for r, _ in rig.log] and "body" not in [r for r, _ in rig.inner_log]:
@@ -433,17 +447,17 @@ def run(ctx, tier, seed, shard, nshards):
                         for mode in modes:
                             do_case(ctx, {"sig": sig, "shape": shape, "req": req, "dreq": dreq, "mode": mode})
                 # the same signature as `async def` and as a method called on an instance (conditions may ask for self)
-                for flavour in ("async", "method"):
+                for flavour in ("async", "method", "inherited"):
                     req = req_variants(sig, flavour)[0]
                     for mode in modes:
                         do_case(ctx, {"sig": sig, "shape": shape, "req": req, "dreq": None, "mode": mode,
                                       "flavour": flavour})
-                        if flavour == "method" and shape["npos"] == 0:
+                        if flavour in METHODISH and shape["npos"] == 0:
                             do_case(ctx, {"sig": sig, "shape": shape, "req": req, "dreq": None, "mode": mode,
                                           "flavour": flavour, "self_kw": True})
                 # the body calls the callable again with other argument objects: the outer call's postcondition,
                 # capture and error factory still get the outer call's values
-                for flavour in ("func", "method"):
+                for flavour in ("func", "method", "inherited"):
                     for mode in ("A", "C"):
                         do_case(ctx, {"sig": sig, "shape": shape, "req": req_variants(sig, flavour)[0], "dreq": None,
                                       "mode": mode, "flavour": flavour, "reenter": True})
@@ -465,9 +479,9 @@ def run(ctx, tier, seed, shard, nshards):
     def st_case(draw):
         sig = draw(sigmodel.st_sig(**bounds))
         shape = draw(sigmodel.st_shape(sig, max_surplus=3 if tier == "thorough" else 2))
-        flavour = draw(st.sampled_from(["func", "func", "async", "method"]))
+        flavour = draw(st.sampled_from(["func", "func", "async", "method", "inherited"]))
         names = sigmodel.sig_params(sig) + ["_ARGS", "_KWARGS"] + (["z1", "z2"] if sig["vk"] else [])
-        if flavour == "method":
+        if flavour in METHODISH:
             names.append("self")
         req = {}
         for role in ("pre", "cap", "post", "errpre", "errpost"):
@@ -483,7 +497,7 @@ def run(ctx, tier, seed, shard, nshards):
             dreq = {r: [n for n in v if n not in ("result", "OLD") and draw(st.booleans())] for r, v in req.items()}
         return {"sig": sig, "shape": shape, "req": req, "dreq": dreq, "mode": draw(st.sampled_from(modes)),
                 "flavour": flavour, "reenter": draw(st.integers(0, 3)) == 0,
-                "self_kw": flavour == "method" and draw(st.booleans())}
+                "self_kw": flavour in METHODISH and draw(st.booleans())}
 
     @given(st_case())
     def test(case):
